@@ -7,7 +7,24 @@ BASE_NOTE = ('Trusted: Coq 8.16.1 kernel (vm_compute, no native_compute), no axi
              'extraction via ExtrOcamlBasic + ocaml/driver.ml (cross-checked by in-kernel replays), the differential '
              'harness; CPython/re/gdb/libwayland/OS are modelled, not verified. The theorem is about the Gallina model; '
              'the model is tied to /repo by the correspondence run of every check. ')
+CORR = 'Coq proof over the executable model + differential correspondence (extracted model vs /repo) + in-kernel vm_compute replays'
 CLAIMED = {
+    'C02': dict(text='Machine-checked theorems about the object table model for ALL histories: table invariant (incarnations numbered 0,1,2.. per id, all but the last dead), every mention resolves to the latest incarnation, creation appends exactly one incarnation labelled by the count of earlier ones, no message without a typed new-id creates, no retyping/relabelling; the model is tied to connection_impl.py/message.py/arg.py by protocol-aware generated histories compared on (type,id,generation) of every mention and the whole table.',
+                ref='DESIGN.md section 9 C02', technique=CORR, note='The counter-style abstract spec over well-formed histories is not a separate theorem: the invariant + latest-incarnation + creation-exact theorems state it directly on the table.'),
+    'C03': dict(text='Machine-checked: never resurrected / at most one alive per id (all histories), death only by delete_id of that id or server-id reuse, destruction annotation present exactly on the display\'s delete_id and naming the latest incarnation, destroy time = message time; tied to the code by comparing alive/create/destroy/lifespan of every object and the annotation of every line.',
+                ref='DESIGN.md section 9 C03', technique=CORR, note='Lifespan text compared with half-a-unit last-digit latitude (binary64 outside the model).'),
+    'C04': dict(text='Machine-checked: connection names are the letter words in opening order in every reachable state and pairwise distinct; a line tagged X leaves every other connection untouched and what it does to X depends on X alone (per-step isolation); opening closes a live namesake first and creates a fresh table; EOF prints only close notices. Tied to the code by interleaved multi-connection histories and a merged-vs-solo metamorphic check.',
+                ref='DESIGN.md section 9 C04', technique=CORR, note='Isolation is per step and excludes the decoder shut-down path (AssertionError stops decoding for all connections), which well-formed histories never take.'),
+    'C05': dict(text='PARTIAL proof: laws of the evaluator and simplifier the documented meaning rests on (list = any alternative and no exclusion at every level, name=value pairs, constant folding, idempotence of simplify, * / !), with the documented examples computed through parse/simplify/matches; the full statement against an independent denotation of the documented grammar (Doc.denote) and parse(render e) = elab e are not yet proved. The model of parse/simplify/matches/str is tied to core/matcher.py by grammar-generated expressions x a message universe, simplified and unsimplified.',
+                ref='DESIGN.md section 9 C05', technique=CORR, note='Known finding D11 ((*) vs zero-argument messages). Floats other than plain decimals and non-ASCII matcher text are out of model.'),
+    'C06': dict(text='Machine-checked: for every sequence of arriving messages, filter changes and selection changes the shown message lines are exactly those matching the filter/selection in force on arrival, each once, in order, and every message is recorded; no command changes what is recorded. Tied to controller.py by sessions with -f filters and commands injected between input lines.',
+                ref='DESIGN.md section 9 C06', technique=CORR, note='Parametric in the matcher semantics.'),
+    'C08': dict(text='Machine-checked: the run is a fold (prefix-closure), truncation after any n lines gives the first n output items + only close notices, a non-message line yields exactly its text (omitted exactly under --supress) and changes no state, a message line under filter * yields exactly one message item. Tied to Parser.parse_all/Output by mixed streams read through a fake file that marks output positions at each readline, plus truncation at every line on the implementation.',
+                ref='DESIGN.md section 9 C08', technique=CORR, note='Real stdout buffering is outside the model (see C13).'),
+    'C11': dict(text='Machine-checked: the scan behind list returns exactly the matching recorded messages oldest first, with cap N>=1 exactly the last N, and matched+didn\'t+not checked = recorded; listing changes nothing but the separator memory. Tied to list_command/_get_matching/show_messages by sessions with list commands of every cap shape.',
+                ref='DESIGN.md section 9 C11', technique=CORR, note='Parametric in the matcher semantics.'),
+    'C12': dict(text='Machine-checked single-step law of join+simplify (alternatives and exclusions are concatenated, always-true alternatives dropped once a specific one is present, constants replace) and idempotence of simplify (kept parts keep their meaning). The multi-step accumulate formula is obtained by iterating the step law; it is not stated as one closed theorem. Tied to matcher.join/parse_and_join by chained filter/breakpoint command sessions.',
+                ref='DESIGN.md section 9 C12', technique=CORR, note='partial: closed-form statement over whole command histories not proved.'),
     'C14': dict(text='Machine-checked proof that the letter codec is a bijection between indexes and non-empty lower-case words '
                      '(both round trips, odometer successor, injectivity of id+letters labels and of connection names), for every '
                      'index with no bound; model tied to core/letter_id_generator.py by exhaustive (3/4 letters) + sampled correspondence '
@@ -15,6 +32,8 @@ CLAIMED = {
                 ref='DESIGN.md section 9 C14',
                 technique='Coq proof (induction over fuel/word, lia) + differential correspondence of the extracted model',
                 note='non-ASCII input to letter_id_to_number is out of model.'),
+    'C16': dict(text='Machine-checked: shifting every log time by a constant leaves all output and state unchanged (exact-decimal model), the time attached to a message is its log time minus the first message\'s, a separator precedes a shown message iff the previously shown one is more than 1 s older. Tied to message.py/parse.message/_show_message by time columns and separators of generated sessions (both decimal marks, gaps around 1 s, filters, listings) and a shift metamorphic check on the implementation.',
+                ref='DESIGN.md section 9 C16', technique=CORR, note='binary64 rounding is outside the model: last-digit latitude, separator at exactly 1 s is don\'t-care.'),
 }
 PENDING = {}
 
